@@ -165,7 +165,7 @@ Proof.
 Qed.
 
 Lemma PJ_setr_ctx s r y : rctxonly (getr s r) y -> PJ s (setr s r y).
-Proof. intros (K & _ & _ & _ & _ & _ & _ & _ & Rm & Rt). apply J_setr; [exact K | intros t H; congruence | intros t H; left; congruence]. Qed.
+Proof. intros (K & _ & _ & _ & _ & _ & _ & _ & Rm & Rt & _). apply J_setr; [exact K | intros t H; congruence | intros t H; left; congruence]. Qed.
 
 Lemma PJ_kmap_delete s k : PJ s (set_kmap s (delete (kmap s) k)).
 Proof.
@@ -290,12 +290,15 @@ Proof.
   pose proof (j_wi _ HJ i x Hx). destruct (Nat.eqb (iroot x) c); exact H.
 Qed.
 
+Lemma PJ_remove_now s r : PJ s (remove_now s r).
+Proof. apply (remove_now_parts PJ PJ_trans PJ_cancel_inst PJ_stop_retry PJ_clear_retry PJ_kmap_delete). Qed.
+
 Theorem PJ_next s e : PJ s (settle (step repaired s e)).
 Proof.
   apply (V_next PJ PJ_refl PJ_trans PJ_cancel_inst (fun s k r c w f H _ => PJ_start s k r c w f H)).
   - intros s0 k _. eapply PJ_trans; [apply PJ_new_record | jext].
   - intros; apply PJ_new_record.
-  - apply PJ_unremove. - apply PJ_setr_ctx. - apply PJ_stop_retry. - apply PJ_clear_retry. - apply PJ_kmap_delete. - apply PJ_arm_remove.
+  - apply PJ_unremove. - apply PJ_setr_ctx. - intros; apply PJ_remove_now. - apply PJ_arm_remove.
   - intros s0 i x p H. now apply (J_seti s0 i x).
   - intros s0 i x o H. now apply (J_seti s0 i x).
   - apply PJ_bookkeep. - apply PJ_cb_remove. - apply PJ_cb_stale. - apply PJ_cb_retry.
@@ -306,7 +309,7 @@ Proof.
   apply (V_step PJ PJ_refl PJ_trans PJ_cancel_inst (fun s k r c w f H _ => PJ_start s k r c w f H)).
   - intros s0 k _. eapply PJ_trans; [apply PJ_new_record | jext].
   - intros; apply PJ_new_record.
-  - apply PJ_unremove. - apply PJ_setr_ctx. - apply PJ_stop_retry. - apply PJ_clear_retry. - apply PJ_kmap_delete. - apply PJ_arm_remove.
+  - apply PJ_unremove. - apply PJ_setr_ctx. - intros; apply PJ_remove_now. - apply PJ_arm_remove.
   - intros s0 i x p H. now apply (J_seti s0 i x).
   - intros s0 i x o H. now apply (J_seti s0 i x).
   - apply PJ_bookkeep. - apply PJ_cb_remove. - apply PJ_cb_stale. - apply PJ_cb_retry.
